@@ -506,7 +506,7 @@ func (w *c13World) build(c *core.Case) (data []byte, desc string) {
 		}
 		desc = "ping/" + pt
 	case 1: // valid header, announce with a chain
-		hdr, _ := cbor.Marshal(&router.PingHeader{PingID: 77, PingType: "announce", AddrHash: s.id.Addr.Hash, KeyType: s.id.Addr.Type, PublicKey: s.id.Addr.PublicKey, Easing: s.id.Addr.Easing})
+		hdr := pingHeaderFor(s.id, 77, "announce", 0, false)
 		msg = append([]byte{1, byte(len(hdr))}, hdr...)
 		msg = append(msg, c13PingBody(c, w, "announce")...)
 		mt, dst = frame.RouterHopPingDeprecated, m.RouterAddress
@@ -563,7 +563,7 @@ func (w *c13World) build(c *core.Case) (data []byte, desc string) {
 		desc = "any-type"
 	default: // big disconnect / big announce info crossing tiers
 		pt := core.OneOf(c, "big.type", "disconnect", "announce")
-		hdr, _ := cbor.Marshal(&router.PingHeader{PingID: 99, PingType: pt, AddrHash: s.id.Addr.Hash, KeyType: s.id.Addr.Type, PublicKey: s.id.Addr.PublicKey, Easing: s.id.Addr.Easing})
+		hdr := pingHeaderFor(s.id, 99, pt, 0, false)
 		msg = append([]byte{1, byte(len(hdr))}, hdr...)
 		msg = append(msg, c13PingBody(c, w, pt)...)
 		mt = frame.RouterPing
